@@ -1164,7 +1164,27 @@ func ruleReplay(r *Report) {
 			}
 		}
 	}
-	h.Check(dirtyOK && n == 1, "(*column.Collection).Replay/dirty", r.P.Pos(inner.Pos()), "dirty = {change.Chunk}", "Replay does not mark exactly the commit's block dirty")
+	// commit() itself marks every block that has a section in the queued buffers; where it does, an
+	// explicit mark in Replay is redundant (its absence changes nothing), a mark of another block is not
+	fromHeaders := false
+	if cm := r.Anchor("(*column.Txn).commit"); cm != nil {
+		for _, c := range callsToDeep(cm, false, "(*commit.Buffer).RangeChunks") {
+			cc, _, _ := callCommon(c.Inner)
+			cb := asFunc(norm(cc.Args[1]))
+			if cb == nil {
+				continue
+			}
+			for _, st := range callsWhere(cb, func(_ ssa.Instruction, c2 *ssa.CallCommon) bool {
+				return methodOn(c2, "github.com/kelindar/bitmap", "Bitmap", "Set")
+			}) {
+				c2, _, _ := callCommon(st)
+				if fr, ok := fieldOf(c2.Args[0]); ok && fr.Field == "dirty" && dependsOn(c2.Args[1], func(z ssa.Value) bool { return z == ssa.Value(cbParam(cb, 0)) }, 3) {
+					fromHeaders = true
+				}
+			}
+		}
+	}
+	h.Check((dirtyOK && n == 1) || (n == 0 && fromHeaders), "(*column.Collection).Replay/dirty", r.P.Pos(inner.Pos()), "dirty = {change.Chunk} (explicitly, or through commit(), which marks every block with a queued section)", "Replay does not mark exactly the commit's block dirty")
 	// append of change.Updates[i] guarded by !IsEmpty, in a loop over all updates; returns nil
 	appOK := false
 	allInstrs(inner, func(ins ssa.Instruction) {
@@ -1312,6 +1332,7 @@ func ruleCodecFlags(r *Report) {
 func ruleVarint(r *Report) {}
 
 func ruleHeaders(r *Report) {
+	defer ruleHeaderRecord(r)
 	h := r.Rule("C05.header", "P", "writeChunk appends a block header {block, position in the buffer, previous offset} exactly when the block changes and always records the last offset; Reader.Range restarts offset and start from the header's value and bounds the section by the next header", 5)
 	ruleWireHeaders(r, h)
 	// sentinel: writeChunk writes the first header because a fresh buffer's block is "none"
